@@ -222,6 +222,9 @@ def h_call_reuse(eng, target):
     third = p.get_asm(ctx2)
     fresh = CallPatch(callee, list(consts)).get_asm(ctx1)
     eng.check(first == fresh, "two CallPatch objects with the same arguments emit different code")
+    # args is documented as an Iterable: a generator, an iterator and a map object are as good as a list
+    for what, it in (("generator", (c for c in consts)), ("iterator", iter(list(consts))), ("map", map(int, consts))):
+        eng.check(CallPatch(callee, it).get_asm(ctx1) == fresh, "arguments handed over as a %s are not passed like a list" % what)
     eng.check(second == fresh and third == fresh,
               "a CallPatch emits different code when it is asked a second/third time (state kept in the patch object)")
 
